@@ -36,6 +36,9 @@ THEOREMS = [
     (REP_MOD, 'NSV.C04.abc_repeats_broken'), (REP_MOD, 'NSV.C04.abc_repeats_general'),
     (REP_MOD, 'NSV.C04.abc_quirk_only_degenerate'), (REP_MOD, 'NSV.C04.abc_degenerate_repeat'),
     (REP_MOD, 'NSV.C04.abc_degenerate_repeat_at_zero'), (REP_MOD, 'NSV.C04.abc_broken_across_section_fails'),
+    # a bar token without colons at a time where a section boundary already exists adds nothing; elsewhere a double bar
+    # outside a repeat starts a section and plays the one before it once
+    (REP_MOD, 'NSV.C04.abc_double_bar_at_boundary'), (REP_MOD, 'NSV.C04.abc_double_bar_new_section'),
     # the non-note containers of expand_section_groups, per section copy (C02's extract + C13's concatenate)
     (EVT_MOD, 'NSV.C04.abc_expand_events'), (EVT_MOD, 'NSV.C04.abc_expand_events_parsed'),
     (EVT_MOD, 'NSV.C04.abc_expand_models_agree'),
@@ -663,6 +666,15 @@ class Gen:
         def end_tok(cnt):   # closes a repeat played `cnt` times
             return ('B', cnt - 1, rng.choice(['|', '|', '|]', '||']), 0)
 
+        def same_time_double_bars(where, p=0.22):
+            """with probability p: one or two double bars (no colons) directly after the bar token just emitted, i.e. at a
+            time where a section boundary ALREADY exists (after `:|`, after another double bar) or where none may be
+            created (time 0, inside an open repeat): they notate nothing — no section, no additional play of anything"""
+            if rng.random() < p:
+                for _ in range(rng.choice([1, 1, 1, 2])):
+                    toks.append(('B', 0, rng.choice(['||', '|]', '[|', '||', '|]|', '[|]']), 0))
+                self.hist.add('same-time-double-bar:' + where)
+
         r = rng.random()
         if repeats and r < 0.2:
             cnt = rng.choice([2, 2, 2, 3, 4])
@@ -670,6 +682,7 @@ class Gen:
             pending = cnt
         elif r < 0.3:
             toks.append(('B', 0, rng.choice(['|', '[|', '||']), 0))
+            same_time_double_bars('at-time-0', 0.15)
         nbars = rng.choice([1, 2, 3, 4, 5, 6, 8])
         for b in range(nbars):
             if b > 0 and len(toks) > budget - 8:
@@ -696,6 +709,7 @@ class Gen:
                         toks.append(end_tok(pending))
                         self.hist.add('repeat:x%d' % pending)
                         pending = None
+                        same_time_double_bars('after-repeat-end')
                         if not last and rng.random() < 0.3:
                             # the next repeat opens with its own token right after the closing one (`:| |:`)
                             pending = rng.choice([2, 2, 3])
@@ -705,6 +719,7 @@ class Gen:
                 elif r < 0.5:
                     toks.append(('B', 0, rng.choice(['||', '|]']), 0))   # double bar inside a repeat: no new section
                     self.hist.add('repeat:double-bar-inside')
+                    same_time_double_bars('inside-repeat', 0.1)
                 else:
                     toks.append(('B', 0, '|', 0))
             else:
@@ -713,8 +728,10 @@ class Gen:
                         cnt = rng.choice([2, 2, 3])
                         toks.append(end_tok(cnt))
                         self.hist.add('repeat:one-sided-x%d' % cnt)
+                        same_time_double_bars('after-repeat-end')
                     elif r < 0.6:
                         toks.append(('B', 0, rng.choice(['|', '|]', '||', '|]']), 0))
+                        same_time_double_bars('at-the-end', 0.1)
                 elif repeats and r < 0.2:
                     cnt = rng.choice([2, 2, 2, 3, 4])
                     toks.append(('B', 0, rng.choice(['|', '|', '||', '[|']), cnt - 1))
@@ -724,10 +741,12 @@ class Gen:
                     cnt = rng.choice([2, 2, 3])
                     toks.append(end_tok(cnt))
                     self.hist.add('repeat:one-sided-x%d' % cnt)
+                    same_time_double_bars('after-repeat-end')
                     sec_notes = False
                 elif r < 0.42:
                     toks.append(('B', 0, rng.choice(['||', '|]', '[|', '|]|']), 0))
                     self.hist.add('double-bar')
+                    same_time_double_bars('after-double-bar')
                     if repeats and rng.random() < 0.25:
                         pending = rng.choice([2, 2, 3])
                         toks.append(('B', 0, rng.choice(['|', '[|']), pending - 1))
@@ -740,6 +759,7 @@ class Gen:
             toks.extend(self.bar_notes(2))
             toks.append(end_tok(pending))
             self.hist.add('repeat:x%d' % pending)
+            same_time_double_bars('after-repeat-end')
         return toks
 
     def split_lines(self, toks):
@@ -1536,7 +1556,8 @@ def run(chk):
     chk.rule = ('tunebooks of 1-4 tunes rendered from a token grammar (every spelling of the module\'s key table x mode words, '
                 'L:1/1..1/64, meters incl. C, C|, none and ratios around 0.75, tempo forms n/d=r / multi-beat / bare r, <= 60 music '
                 'tokens with bar-scoped accidentals on small letter pools, octave marks, all length shorthands, broken rhythm 1-3 '
-                'marks, inline and body fields, simple / counted / one-sided / colon-only repeats, double bars) through the real '
+                'marks, inline and body fields, simple / counted / one-sided / colon-only repeats, double bars, also one or two double bars at '
+                'a time where a section boundary already exists: after :|, after another double bar, at time 0, at the end) through the real '
                 'parser (text) and the Lean model (tokens), outputs incl. expand_section_groups diffed exactly; streams: supported, '
                 'mixed with each unsupported construct, unbalanced repeats, malformed token soup, exhaustive key table, and a small '
                 'stream of broken-rhythm pairs ACROSS a bar token (the class of the open finding F-C04-6: oracle failures there '
